@@ -267,3 +267,20 @@ Fixpoint show_ty (t : pytype) {struct t} : str :=
   end.
 
 Definition gen_text (fc : bool) (s : schema) : str := show_ty (gen schema_opts fc PTop s).
+
+(* ---- C14: where a constraint is written ----------------------------------------------------- *)
+Definition is_pin (p : pos) : bool := match p with PIn => true | _ => false end.
+
+(* schemas on which the two constraint styles place everything alike: no item counts on an array that is
+   an array item or union member, no bounds on a scalar that is directly a map value *)
+Fixpoint place_free (p : pos) (s : schema) : bool :=
+  match s with
+  | SInt c => negb (is_pval p) || c_is_none c
+  | SStr lo hi => negb (is_pval p) || (on_is_none lo && on_is_none hi)
+  | SNullable s' => place_free p s'
+  | SArr s' lo hi => (negb (is_pin p) || no_counts s) && place_free PIn s'
+  | SMap s' => place_free PVal s'
+  | SAny alts => forallb (place_free PIn) alts
+  | SObj props _ => forallb (fun q => place_free PTop (snd (snd q))) props
+  | _ => true
+  end.
